@@ -10,6 +10,7 @@ import (
 	"regexp"
 	"sort"
 	"strings"
+	"sync"
 	"time"
 
 	"ddpsim/prng"
@@ -63,13 +64,13 @@ func evalHeapRun(o *heapOutcome, k int, st func(uint64) string) []heapViol {
 		return nil // handled by the caller as harness trouble / timeout
 	}
 	for _, v := range res.Report.Viol {
-		sym := r.PCSym
+		sym := normSym(r.PCSym)
 		if v.Inv == "L3" {
 			// identify the leak by the allocation sites of the leaked blocks
 			seen := map[string]bool{}
 			var sites []string
 			for _, l := range res.Report.Live {
-				s := st(l.PC)
+				s := normSym(st(l.PC))
 				if !seen[s] {
 					seen[s] = true
 					sites = append(sites, s)
@@ -114,6 +115,9 @@ func heapHas(tc *Toolchain, p *HProg, cfg BuildCfg, pol HeapPolicy, inv, sig str
 	}
 	// symbols were resolved by runHeapJob for the violating pc; leaks need the symtab again
 	for _, v := range evalHeapRunWithExe(tc, o) {
+		if os.Getenv("DDPSIM_DEBUG") != "" {
+			logf("heapHas: %s %q %s", v.Inv, v.Sig, v.Detail)
+		}
 		if v.Inv == inv && v.Sig == sig {
 			return true
 		}
@@ -127,19 +131,7 @@ func evalHeapRunWithExe(tc *Toolchain, o *heapOutcome) []heapViol {
 }
 
 func minimiseHeap(tc *Toolchain, p *HProg, cfg BuildCfg, pol HeapPolicy, inv, sig string) *HProg {
-	deadline := time.Now().Add(75 * time.Second)
-	cur := &HProg{Name: p.Name, Root: p.Root, Files: map[string][]byte{}, Stdin: p.Stdin, Args: p.Args}
-	for k, v := range p.Files {
-		cur.Files[k] = v
-	}
-	n := 0
-	try := func(c *HProg) bool {
-		if time.Now().After(deadline) {
-			return false
-		}
-		n++
-		return heapHas(tc, c, cfg, pol, inv, sig, n)
-	}
+	deadline := time.Now().Add(150 * time.Second)
 	clone := func(c *HProg) *HProg {
 		d := &HProg{Name: c.Name, Root: c.Root, Files: map[string][]byte{}, Stdin: c.Stdin, Args: c.Args}
 		for k, v := range c.Files {
@@ -147,26 +139,61 @@ func minimiseHeap(tc *Toolchain, p *HProg, cfg BuildCfg, pol HeapPolicy, inv, si
 		}
 		return d
 	}
-	// statement-block ddmin over the root file: chunks are top-level "paragraphs" (a line plus its indented continuation)
-	chunks := splitParagraphs(cur.Files[cur.Root])
-	gran := 2
-	for len(chunks) >= 2 && time.Now().Before(deadline) {
-		sz := (len(chunks) + gran - 1) / gran
-		reduced := false
-		for s := 0; s < len(chunks); s += sz {
-			e := min(s+sz, len(chunks))
-			cand := append(append([][]byte{}, chunks[:s]...), chunks[e:]...)
-			c := clone(cur)
-			c.Files[c.Root] = joinBytes(cand)
-			if try(c) {
-				cur = c
-				chunks = cand
-				gran = max(gran-1, 2)
-				reduced = true
-				break
+	cur := clone(p)
+	tries := 0
+	// firstOK evaluates the candidates in parallel and returns the index of the first (lowest) that still fails the same way
+	firstOK := func(cands []*HProg) int {
+		if time.Now().After(deadline) || len(cands) == 0 {
+			return -1
+		}
+		ok := make([]bool, len(cands))
+		var wg sync.WaitGroup
+		sem := make(chan struct{}, nWorkers)
+		for i := range cands {
+			wg.Add(1)
+			tries++
+			go func(i, id int) {
+				defer wg.Done()
+				sem <- struct{}{}
+				defer func() { <-sem }()
+				ok[i] = heapHas(tc, cands[i], cfg, pol, inv, sig, id)
+			}(i, tries)
+		}
+		wg.Wait()
+		for i := range ok {
+			if ok[i] {
+				return i
 			}
 		}
-		if !reduced {
+		return -1
+	}
+	// statement-block ddmin over the root file: chunks are top-level "paragraphs"; then single lines
+	for pass := 0; pass < 2; pass++ {
+		var chunks [][]byte
+		if pass == 0 {
+			chunks = splitParagraphs(cur.Files[cur.Root])
+		} else {
+			chunks = splitLinesKeep(cur.Files[cur.Root])
+		}
+		gran := 2
+		for len(chunks) >= 2 && time.Now().Before(deadline) {
+			sz := (len(chunks) + gran - 1) / gran
+			var cands []*HProg
+			var candChunks [][][]byte
+			for s := 0; s < len(chunks); s += sz {
+				e := min(s+sz, len(chunks))
+				cc := append(append([][]byte{}, chunks[:s]...), chunks[e:]...)
+				c := clone(cur)
+				c.Files[c.Root] = joinBytes(cc)
+				cands = append(cands, c)
+				candChunks = append(candChunks, cc)
+			}
+			if i := firstOK(cands); i >= 0 {
+				cur = cands[i]
+				chunks = candChunks[i]
+				gran = max(gran-1, 2)
+				continue
+			}
 			if gran >= len(chunks) {
 				break
 			}
@@ -452,3 +479,8 @@ func replayHeapStored(tc *Toolchain, path string) bool {
 var replayIdx = 200000
 
 func nextReplayIdx() int { replayIdx++; return replayIdx }
+
+var reModHash = regexp.MustCompile(`_mod_[0-9a-f]{16,}`)
+
+// normSym removes the path-derived module hash from a mangled DDP symbol.
+func normSym(s string) string { return reModHash.ReplaceAllString(s, "") }
